@@ -254,6 +254,9 @@ func newSSWorker(workerID uint64, stopper *syncutil.Stopper) *ssWorker {
 }
 
 func (w *ssWorker) workerMain() {
+	if verifEnabled {
+		return
+	}
 	for {
 		select {
 		case <-w.stopper.ShouldStop():
@@ -373,6 +376,9 @@ func (p *workerPool) getWorker() *ssWorker {
 }
 
 func (p *workerPool) workerPoolMain() {
+	if verifEnabled {
+		return
+	}
 	ticker := time.NewTicker(200 * time.Millisecond)
 	defer ticker.Stop()
 	cases := make([]reflect.SelectCase, len(p.workers)+6)
@@ -763,6 +769,9 @@ func newCloseWorker(workerID uint64, stopper *syncutil.Stopper) *closeWorker {
 }
 
 func (w *closeWorker) workerMain() {
+	if verifEnabled {
+		return
+	}
 	for {
 		select {
 		case <-w.stopper.ShouldStop():
@@ -823,6 +832,9 @@ func (p *closeWorkerPool) close() error {
 }
 
 func (p *closeWorkerPool) workerPoolMain() {
+	if verifEnabled {
+		return
+	}
 	cases := make([]reflect.SelectCase, len(p.workers)+2)
 	for {
 		// 0 - pool stopper stopc
@@ -1073,6 +1085,9 @@ func (e *engine) crash(err error) {
 }
 
 func (e *engine) close() error {
+	if verifEnabled {
+		return e.verifClose()
+	}
 	e.nodeStopper.Stop()
 	e.commitStopper.Stop()
 	e.taskStopper.Stop()
@@ -1105,6 +1120,9 @@ func (e *engine) load(workerID uint64,
 }
 
 func (e *engine) commitWorkerMain(workerID uint64) {
+	if verifEnabled {
+		return
+	}
 	nodes := make(map[uint64]*node)
 	ticker := time.NewTicker(nodeReloadInterval)
 	defer ticker.Stop()
@@ -1151,6 +1169,9 @@ func (e *engine) processCommits(idmap map[uint64]struct{},
 }
 
 func (e *engine) applyWorkerMain(workerID uint64) {
+	if verifEnabled {
+		return
+	}
 	nodes := make(map[uint64]*node)
 	ticker := time.NewTicker(nodeReloadInterval)
 	defer ticker.Stop()
@@ -1228,6 +1249,9 @@ func (e *engine) processApplies(idmap map[uint64]struct{},
 }
 
 func (e *engine) stepWorkerMain(workerID uint64) {
+	if verifEnabled {
+		return
+	}
 	nodes := make(map[uint64]*node)
 	ticker := time.NewTicker(nodeReloadInterval)
 	defer ticker.Stop()
